@@ -192,15 +192,32 @@ class Cell(NullCell):
         # Hash_repr(c) := sha256(CellRepr(c))
         return hashlib.sha256(self.get_representation()).digest()
 
-    def order(self, result: dict = {}) -> dict:
+    def order(self, result: dict = None) -> dict:
         """
         :return: dict {<Cell>: <index>}
         """
-        if self in result:
-            result.pop(self)
-        result[self] = None
-        for ref in self.refs:
-            ref.order(result)
+        if result is None:
+            result = {}
+        # every cell must come after all cells referencing it: reversed post-order of a memoised DFS that takes
+        # refs right to left (the order the former recursive re-insertion produced, without re-walking shared cells)
+        done = set()
+        post = []
+        stack = [(self, False)]
+        while stack:
+            cell, expanded = stack.pop()
+            if cell in done:
+                continue
+            if expanded:
+                done.add(cell)
+                post.append(cell)
+                continue
+            stack.append((cell, True))
+            for ref in cell.refs:
+                if ref not in done:
+                    stack.append((ref, False))
+        for cell in reversed(post):
+            result.pop(cell, None)
+            result[cell] = None
         return result
 
     def serialize(self, indexes: dict, byte_len: int) -> bytes:
